@@ -1478,6 +1478,22 @@ def cases(rng, ctx):
         items += ['%s(%s,%s,%s)' % ((name,) + t) for t in rng.sample(tri, min(len(tri), (40 if not thorough else 600) * scale))]
         out.append({'kind': 'strings', 'stream': 'fn-edge', 'items': items})
 
+    # ---- (c'') pattern arguments against texts built to make a backtracking matcher explode: many wildcards separated by a literal
+    # that occurs many times in the text, and no match in the end (criteria functions, wildcard MATCH, text search)
+    long_text = '"' + '-'.join('f%d' % i for i in range(48)) + '"'
+    aaa = '"' + 'a' * 40 + '"'
+    pats = ['"' + '*-' * k + '*.csv"' for k in (6, 12, 17, 24)] + ['"' + '*a' * k + 'b"' for k in (8, 16, 24)] + \
+           ['"' + '?*' * 14 + 'z"', '"' + '*' * 30 + 'q"', '"<>' + '*-' * 17 + 'x"', '"=' + '*a' * 20 + 'c"']
+    items = []
+    for text in (long_text, aaa):
+        arr = '{%s,%s,1}' % (text, text)
+        for pat in pats:
+            items += ['COUNTIF(%s,%s)' % (arr, pat), 'SUMIF(%s,%s)' % (arr, pat), 'AVERAGEIF(%s,%s,{1,2,3})' % (arr, pat),
+                      'COUNTIFS(%s,%s)' % (arr, pat), 'SUMIFS({1,2,3},%s,%s)' % (arr, pat), 'AVERAGEIFS({1,2,3},%s,%s)' % (arr, pat),
+                      'MAXIFS({1,2,3},%s,%s)' % (arr, pat), 'MATCH(%s,%s,0)' % (pat, arr), 'SEARCH(%s,%s)' % (pat, text),
+                      'FIND(%s,%s)' % (pat, text), 'SUBSTITUTE(%s,%s,"x")' % (text, pat)]
+    out.append({'kind': 'strings', 'stream': 'fn-pattern', 'items': items})
+
     # ---- (d) host callbacks
     for how in RET_HOWS + RAISE_HOWS + REENTER_HOWS:
         out.append({'kind': 'host', 'where': 'fn', 'how': how, 'items': FN_FORMS,
